@@ -2,6 +2,7 @@ package character
 
 import (
 	"fmt"
+	"sort"
 
 	"github.com/simimpact/srsim/pkg/engine/equip/lightcone"
 	"github.com/simimpact/srsim/pkg/engine/equip/relic"
@@ -51,8 +52,16 @@ func (mgr *Manager) AddCharacter(id key.TargetID, char *model.Character) error {
 	}
 
 	// add relic stats from relic config + get list of callbacks to call later
+	// relic sets in a fixed order: their effects attach modifiers and subscribe listeners
+	relicKeys := make([]key.Relic, 0, len(relics))
+	for r := range relics {
+		relicKeys = append(relicKeys, r)
+	}
+	sort.Slice(relicKeys, func(i, j int) bool { return relicKeys[i] < relicKeys[j] })
+
 	var relicCBs []relic.CreateEffectFunc
-	for r, count := range relics {
+	for _, r := range relicKeys {
+		count := relics[r]
 		config, err := relic.Get(r)
 		if err != nil {
 			return err
